@@ -13,7 +13,7 @@ BUDGET = {"quick": 4000, "thorough": 48000}
 RULE = (
     "case = generated scenario (max_nodes in {None,1,2,3}, processes-per-node in {unset,1,2,3}, node CPU count 1-4) "
     "x schedule x up to 3 moments at which the scheduler shows a queued/running batch in a non-terminal state outside "
-    "JADE's table (REQUEUED, SUSPENDED, RESIZING, ...; a suspended batch's processes do not run) x optional resubmit-jobs issued the moment the submission completes "
+    "JADE's table (REQUEUED, SUSPENDED, RESIZING, ...; a suspended batch's processes do not run) x up to 2 failing scheduler commands (n-th squeue once or for a whole retry window, n-th sbatch once) x optional resubmit-jobs issued the moment the submission completes "
     "(the completing batch is still running); after every sbatch the simulator's count of PENDING+RUNNING batches of the submission must be <= "
     "max_nodes; after every job launch the number of live job processes of that node must be <= "
     "processes-per-node (or the node's SLURM_CPUS_ON_NODE when unset; local mode: the machine's CPU count); "
@@ -33,14 +33,22 @@ def strategy(tier):
                                       # the batch that completed it is then still running
                                       "resubmit_at_completion": st.sampled_from([False, False, True]),
                                       "exotic": st.lists(st.fixed_dictionaries({"at": st.integers(10, 400), "steps": st.integers(10, 200),
-                                                                                 "which": st.integers(0, 7)}), max_size=3)})
+                                                                                 "which": st.integers(0, 7)}), max_size=3),
+                                      # the limits also hold while the scheduler's commands fail: the n-th squeue call fails
+                                      # once or for a whole retry window, the n-th sbatch fails once
+                                      "faults": st.lists(st.one_of(
+                                          st.fixed_dictionaries({"kind": st.sampled_from(["squeue_fail_series", "squeue_fail_series",
+                                                                                           "squeue_fail_once"]), "nth": st.integers(0, 12)}),
+                                          st.fixed_dictionaries({"kind": st.just("sbatch_fail_once"), "nth": st.integers(0, 4)})),
+                                          max_size=2)})
 
     return st.one_of(cases(), cases(), cases(), cases(mode="local", max_groups=1))
 
 
 def run_case(case):
     scn = case["scn"]
-    with H.Sim(scn, schedule=case["schedule"], exotic=case.get("exotic", ())) as sim:
+    with H.Sim(scn, schedule=case["schedule"], exotic=case.get("exotic", ()),
+               faults=[dict(f) for f in case.get("faults", [])]) as sim:
         import os
 
         if case.get("resubmit_at_completion") and scn["mode"] == "hpc":
@@ -62,6 +70,8 @@ def run_case(case):
         if any(r["k"] == "user" and r["cmd"] == "resubmit" for r in sim.w.log):
             res["classes"].append("resubmitted_while_last_batch_still_running")
         v = res["violations"]
+        for kind in sorted({h[0] for h in sim.w.fault_hits}):
+            res["classes"].append("fault_hit:" + kind)
         mx = scn["max_nodes"]
         sb = sim.w.events("sbatch")
         peak_nodes = 0
